@@ -5,14 +5,15 @@
     state and the abstract (phase, transaction) state, preserved by every round
     of the command loop; the facts about the commands[] table that the proof
     needs are checked by computation on the table regenerated from the C. *)
-From Qv Require Import Common.Bytes Gen.GenNetio Gen.GenSession Model.NetRead Model.Session Spec.SessionSpec Proofs.AuthSync.
+From Qv Require Import Common.Bytes Gen.GenNetio Gen.GenSession Model.NetRead Model.Session Spec.SessionSpec Proofs.AuthSync Proofs.EsmtpSync.
 From Coq Require Import Lia ZArith.
 
 (** ---------- the commands[] table, as far as the properties depend on it ---------- *)
 Definition entry_ok (ie : nat * (list N * N * nat * Z * N)) : bool :=
   let '(i, (_, mask, hid, st, _)) := ie in
   match hid with
-  | 0 | 9 | 10 | 12 => Z.ltb st 0                               (* NOOP, AUTH, VRFY, POST: state unchanged *)
+  | 0 | 10 | 12 => Z.ltb st 0                                   (* NOOP, VRFY, POST: state unchanged *)
+  | 9 => N.eqb mask 16 && Z.ltb st 0                             (* AUTH only in 0x10 (after EHLO): state unchanged *)
   | 2 => Z.eqb st 1                                              (* RSET before a greeting: initial state *)
   | 3 => Z.eqb st 0 && Nat.eqb i 3                               (* HELO -> 0x08 *)
   | 4 => Z.eqb st 0 && Nat.eqb i 4                               (* EHLO -> 0x10 *)
@@ -482,7 +483,7 @@ Proof.
   set (sq := {| rd := rd s2; comstate := comstate s2; qcount := S k; rcpts := rcpts s2; mailfrom := mailfrom s2 |}) in H.
   destruct (data_loop f o _ (rd sq) _) as [de r'] eqn:Edl.
   (* the abstract state after the boundary *)
-  set (ab := {| a_phase := PHelo; a_txn := None; a_stored := 0; a_auth := a_auth a |}).
+  set (ab := {| a_phase := PHelo; a_txn := None; a_stored := 0; a_auth := a_auth a; a_esmtp := a_esmtp a |}).
   assert (Htr1 : trace_run o [Note (NData k); Reply 354] a = Some a).
   { cbn [trace_run trace_step]. rewrite Htxn, Ers. reflexivity. }
   assert (Hbd : trace_step o (Note NBoundary) a = Some ab).
@@ -603,10 +604,10 @@ Proof.
   rewrite (quiet_queue_idle _ Hq). destruct h; try (split; [auto|exact HR]). congruence.
 Qed.
 
-Lemma dispatch_spec f s a l evs h s1 : R s a -> a_auth a = authed s -> dispatch f o s l = (evs, h, s1) ->
+Lemma dispatch_spec f s a l evs h s1 : R s a -> a_auth a = authed s -> K s (a_esmtp a) -> dispatch f o s l = (evs, h, s1) ->
   exists a', trace_run o evs a = Some a' /\ post evs h s1 a'.
 Proof.
-  intros HRI HA H. pose proof HRI as [HR HI]. unfold dispatch in H.
+  intros HRI HA HK H. pose proof HRI as [HR HI]. unfold dispatch in H.
   destruct (negb (line_valid l)).
   { inversion H; subst. apply post_quiet_keep; [exact HRI|reflexivity|discriminate]. }
   destruct (find_cmd commands 0 l) as [[i [[[[name mask] hid] st] flags]]|] eqn:Ef.
@@ -717,13 +718,17 @@ Proof.
   - (* 8 STARTTLS *)
     inversion H; subst. apply post_quiet_keep; [exact HRI|reflexivity|discriminate].
   - (* 9 AUTH *)
+    apply andb_true_iff in Hent as [Hm16 Hent]. apply N.eqb_eq in Hm16. subst mask.
+    assert (Hc16 : comstate s = 16%N).
+    { destruct Hcs as [E|[E|[E|[E|E]]]]; rewrite E in Emask; auto; exfalso; apply Emask; reflexivity. }
+    assert (Hesm : a_esmtp a = true) by (apply (proj2 HK); exact Hc16).
     apply Z.ltb_lt in Hent.
     destruct (authed s || negb (o_authperm o)).
     { inversion H; subst. apply post_quiet_keep; [exact HRI|reflexivity|discriminate]. }
     destruct (o_auth o (skipn 5 l)) as [nm|c|].
     + destruct (Z.ltb 0 st) eqn:E1; [apply Z.ltb_lt in E1; lia|].
       destruct (Z.eqb st 0) eqn:E2; [apply Z.eqb_eq in E2; lia|].
-      inversion H; subst. eexists. split; [cbn [trace_run trace_step]; reflexivity|].
+      inversion H; subst. eexists. split; [cbn [trace_run trace_step]; rewrite Hesm; reflexivity|].
       split; [exact HI|]. split; [reflexivity|]. exact HR.
     + inversion H; subst. apply post_quiet_keep; [exact HRI|reflexivity|discriminate].
     + inversion H; subst. exists a. split; [reflexivity|]. split; [exact HI|]. simpl. discriminate.
@@ -753,16 +758,16 @@ Qed.
 Lemma R_set_rd s r a : R s a -> R (set_rd s r) a.
 Proof. intros H. exact H. Qed.
 
-Lemma step_spec f s a evs so : R s a -> a_auth a = authed s -> step f o s = (evs, so) ->
+Lemma step_spec f s a evs so : R s a -> a_auth a = authed s -> K s (a_esmtp a) -> step f o s = (evs, so) ->
   exists a', trace_run o evs a = Some a' /\ queue_run o evs QIdle <> None
     /\ (forall s', so = Some s' -> R s' a' /\ queue_run o evs QIdle = Some QIdle).
 Proof.
-  intros HR HA H. unfold step in H.
+  intros HR HA HK H. unfold step in H.
   destruct (net_read (rd s)) as [it r'].
   pose proof (R_set_rd s r' a HR) as HR0.
   destruct it as [l| | | |].
   - destruct (dispatch f o (set_rd s r') l) as [[e h] s1] eqn:Ed.
-    destruct (dispatch_spec _ _ _ _ _ _ _ HR0 HA Ed) as (a' & Htr & HI & Hpost).
+    destruct (dispatch_spec _ _ _ _ _ _ _ HR0 HA HK Ed) as (a' & Htr & HI & Hpost).
     assert (Hgen : forall ev so', on_error s1 h = (ev, so') ->
               (queue_run o e QIdle = Some QIdle \/ (queue_run o e QIdle = Some QFailed /\ (h = HE2BIG \/ h = HEMSGSIZE))) ->
               RcS (comstate s1) s1 a' ->
@@ -799,24 +804,26 @@ Proof.
   - inversion H; subst. exists a. split; [reflexivity|]. split; [simpl; discriminate|]. discriminate.
 Qed.
 
-Lemma serve_spec fuel : forall s a, R s a -> a_auth a = authed s ->
+Lemma serve_spec fuel : forall s a, R s a -> a_auth a = authed s -> K s (a_esmtp a) ->
   trace_run o (serve fuel o s) a <> None /\ queue_run o (serve fuel o s) QIdle <> None.
 Proof.
-  induction fuel as [|f IH]; intros s a HR HA; cbn [serve]; [split; discriminate|].
+  induction fuel as [|f IH]; intros s a HR HA HK; cbn [serve]; [split; discriminate|].
   destruct (step f o s) as [ev so] eqn:Es.
-  destruct (step_spec _ _ _ _ _ HR HA Es) as (a' & Htr & Hq & Hnext).
+  destruct (step_spec _ _ _ _ _ HR HA HK Es) as (a' & Htr & Hq & Hnext).
   rewrite trace_run_app, queue_run_app, Htr.
   destruct so as [s'|].
-  - destruct (Hnext s' eq_refl) as (HR' & Hq'). rewrite Hq'. apply IH; [exact HR'|].
-    (* "authenticated" stays in step: both sides change exactly at an AUTH note *)
-    rewrite (trace_run_auth o _ _ _ Htr), (step_auth o _ _ _ _ Es), HA. reflexivity.
+  - destruct (Hnext s' eq_refl) as (HR' & Hq'). rewrite Hq'. apply IH; [exact HR'| |].
+    + (* "authenticated" stays in step: both sides change exactly at an AUTH note *)
+      rewrite (trace_run_auth o _ _ _ Htr), (step_auth o _ _ _ _ Es), HA. reflexivity.
+    + (* "the last accepted greeting was EHLO" follows the greeting notes *)
+      rewrite (trace_run_esm o _ _ _ Htr). exact (step_esm o _ _ _ _ _ Es HK).
   - split; [discriminate|]. destruct (queue_run o ev QIdle); [discriminate|congruence].
 Qed.
 
 Theorem session_trace_ok chunks : trace_ok o (run_session o chunks) /\ queue_ok o (run_session o chunks).
 Proof.
   unfold trace_ok, queue_ok, run_session. cbn [trace_run trace_step queue_run queue_step].
-  apply serve_spec; [split|reflexivity].
+  apply serve_spec; [split|reflexivity|split; discriminate].
   - unfold init_state, Rc, a_init. cbn. repeat split; auto.
   - unfold Irel, init_state. cbn. discriminate.
 Qed.
@@ -855,6 +862,17 @@ Proof.
   destruct (Nat.leb MAXRCPT (a_stored a)); [congruence|].
   destruct (Z.ltb 0 (o_relay o)) eqn:Er; [apply Z.ltb_lt in Er; left; exact Er|].
   destruct (a_auth a) eqn:Eau; [right; now rewrite <- Hau|]. simpl in Ht. congruence.
+Qed.
+
+(** AUTH is accepted only in ESMTP mode: the last greeting accepted before it was an EHLO (C09) *)
+Theorem auth_needs_ehlo chunks pre n post :
+  run_session o chunks = pre ++ Note (NAuth n) :: post -> esm_run pre false = true.
+Proof.
+  intros E. destruct (session_trace_ok chunks) as [Ht _]. unfold trace_ok in Ht. rewrite E in Ht.
+  destruct (trace_run_prefix pre _ a_init Ht) as (a & Ha).
+  rewrite trace_run_app, Ha in Ht. cbn [trace_run trace_step] in Ht.
+  pose proof (trace_run_esm o _ _ _ Ha) as He. cbn [a_esmtp a_init] in He.
+  destruct (a_esmtp a) eqn:Ee; [now rewrite <- He|]. cbn [negb] in Ht. congruence.
 Qed.
 
 (** a hand-off happens only for a qmail-queue invocation that accepted the message *)
